@@ -48,7 +48,7 @@ theorem no_conflict_partial {ms : Option Nat} {c ch : ChanState} {others : List 
     (hc : 0 < c.cfg.clock) (hl : c.last = .ok last)
     (h : makeNextPulseSlot ms c others p barriers proto drift blk = .ok slot)
     (hproto : proto ≠ .noDelay) (hch : ch ∈ others) (hinv : ChanInv ms ch)
-    (hA1 : ∀ s ∈ ch.slots, ∀ p, s.kind = .pulse p → p.fall ch.inEomMode ≤ 2 * ch.cfg.rise)
+    (hA1 : ∀ s ∈ ch.slots, ∀ p, s.kind = .pulse p → p.fall ch.inEomMode ≤ 2 * ch.modeRise)
     (hq : firstPulse ch.slots.reverse = some (q, pq))
     (hshare : (q.targets.any (last.targets.contains ·) || (proto == .waitForAll)) = true) :
     q.tf + (pq.fall ch.inEomMode : Nat) ≤ slot.ti := by
